@@ -97,7 +97,7 @@ def cases(tier, seed, info):
             else:
                 items.append(dict(cache='other', mod=rng.choice(['damaged', 'e500', 'm2c00', 'plain', 'badheader',
                                                                  'bmcproc', 'lp', 'hidden', 'regmsg', 'regmsg', 'regmsg', 'regmsg', 'ilog', 'ilog',
-                                                                 'longkeys', 'longkeys', 'longkeys']), beh='-',
+                                                                 'longkeys', 'longkeys', 'longkeys', 'drawerpair', 'drawerpair', 'drawerpair', 'drawerpair']), beh='-',
                                   plugins=rng.random() < .7))
         out.append(dict(kind='history', origin='random', seed=seed * 17 + k + 777, items=items))
     info['random_histories'] = m
@@ -190,6 +190,26 @@ def realise(rng, item, serial):
             u = genpel.hdr(rng, 'UD')
             u.update(kind='UD', comp=[0x2C, 0x00], sub=73, ver=ver, payload=payload)
             secs = [u]
+        elif mod == 'drawerpair':
+            # an I/O drawer log with a history log section in FRONT of its ILOG section, the ILOG made of entries the
+            # two drawer types describe differently: which table is used is a matter of this section's version only
+            from . import c14
+            from .. import drawer
+            creator = 'M'
+            ver = rng.choice([1, 2])
+            mine = drawer.read_pte_table(os.path.join(drawer.io_dir(), ['mex_pte.h', 'nimitz_pte.h'][ver - 1]))[0]
+            theirs = {e['pattern'].upper(): e['msg'] for e in
+                      drawer.read_pte_table(os.path.join(drawer.io_dir(), ['nimitz_pte.h', 'mex_pte.h'][ver - 1]))[0]}
+            differing = [e for e in mine if '*' not in e['pattern'] and len(e['pattern']) == 8
+                         and theirs.get(e['pattern'].upper(), e['msg']) != e['msg']]
+            payload = []
+            for n, e in enumerate(rng.sample(differing, min(len(differing), rng.randrange(1, 4)))):
+                payload += c14.entry_bytes(rng.choice(c14.TS), (serial * 16 + n) & 0xFFFF, int(e['pattern'], 16))
+            h = genpel.hdr(rng, 'UD')
+            h.update(kind='UD', comp=[0x2C, 0x00], sub=72, ver=ver, payload=genpel.rbytes(rng, 64))
+            u = genpel.hdr(rng, 'UD')
+            u.update(kind='UD', comp=[0x2C, 0x00], sub=73, ver=ver, payload=payload or genpel.rbytes(rng, 8))
+            secs = [h, u] if rng.random() < .7 else [u, h]
         elif mod == 'bmcproc':
             s = genpel.gen_src(rng, 'PS', ncallouts=1, shapes=[dict(fru='m', pce=None, mru=None, loc=0)], kind='BD')
             s['callouts']['list'][0]['fru']['pn'] = encode.text(rng.choice(['BMC0001', 'BMC0004', 'BMC9999']), 8)
@@ -343,7 +363,7 @@ def _dir(case):
     head = [o for o in opts if o in ('-E', '-H', '-N', '-O', '-s', '-t')]
     tail = opts[len(head):] if '-S' in opts else []
     for k in range(case['n']):
-        it = rng.choice(alphabet) if k % 2 else dict(cache='other', mod=rng.choice(['e500', 'plain', 'lp', 'regmsg', 'ilog', 'longkeys', 'longkeys']), beh='-')
+        it = rng.choice(alphabet) if k % 2 else dict(cache='other', mod=rng.choice(['e500', 'plain', 'lp', 'regmsg', 'ilog', 'longkeys', 'longkeys', 'drawerpair', 'drawerpair']), beh='-')
         data, sent = realise(rng, it, k)
         if opts != ['-E'] and len(data) > 72:
             # severities and action flags of every kind: what the selection options make of ONE log does not depend
